@@ -248,6 +248,10 @@ def rule_names(ctx):
             root_ok = 'dump-folder' in show(base) or mir.contains(base, lambda x: x[0] == 'str' and x[1] == 'dump-folder') or \
                 mir.contains(base, lambda x: x[0] == 'field' and x[2] == 'dump_folder')
         in_ctor = b2.path.endswith('::new') and b2.impl_trait and b2.impl_trait.endswith(CALLBACK)
+        ctx.check('names', 'create-truncates:%s' % cs.body.path, cs.name == 'std::fs::File::create', cs,
+                  'tmp file opened with the truncating File::create',
+                  bad_detail='tmp file opened with %s: content left behind by an earlier aborted run survives, so an exit-0 run can produce '
+                  'a final-named file that is not identical to an undisturbed run' % cs.name)
         if names is None:
             ctx.violation('names', 'create-path-not-constant:%s' % b2.path, cs, 'created path %s is not <dump_folder>/<const>' % show(e)[:160])
             continue
@@ -442,7 +446,7 @@ def run(ctx):
     ctx.guard('readfail', rule_readfail)
     ctx.guard('main', rule_main)
     ctx.floor('flush', 12)
-    ctx.floor('names', 19)
+    ctx.floor('names', 25)
     ctx.floor('results', 300)
     ctx.floor('readfail', 4)
     ctx.floor('main', 5)
